@@ -498,6 +498,23 @@ def checkpoint_case(ctx, case):
         if a["actions"].shape != b["actions"].shape or not torch.equal(a["actions"], b["actions"]) or not torch.allclose(a["reward"], b["reward"], rtol=1e-5, atol=1e-6) or not torch.allclose(a["log_likelihood"], b["log_likelihood"], rtol=1e-4, atol=1e-5):
             ctx.violation(dict(sig, q="policy"), "greedy actions / rewards / log-likelihoods of the restored policy differ from the saved model's", None)
             return
+        # the restored model as it is USED: validation / test phases pick their decoding from the policy's own configuration
+        # (multi-start models rewrite it at construction, and construction runs again on restore)
+        for ph in ("val", "test"):
+            cfg_a, cfg_b = getattr(model.policy, f"{ph}_decode_type", None), getattr(loaded.policy, f"{ph}_decode_type", None)
+            ctx.count("c19_phase_decode_checks")
+            if cfg_a != cfg_b:
+                ctx.violation(dict(sig, q="phase_decode_type", phase=ph), f"the restored policy decodes the {ph} phase with '{cfg_b}', the saved model with '{cfg_a}'", None)
+                return
+            nst = dict(num_starts=3) if kind == "pomo" else {}
+            with torch.inference_mode():
+                torch.manual_seed(seed + 4)
+                pa = model.policy(env.reset(td_in.clone()), env, phase=ph, return_actions=True, **nst)
+                torch.manual_seed(seed + 4)
+                pb = loaded.policy(loaded.env.reset(td_in.clone()), loaded.env, phase=ph, return_actions=True, **nst)
+            if pa["actions"].shape != pb["actions"].shape or not torch.equal(pa["actions"], pb["actions"]) or not torch.allclose(pa["reward"], pb["reward"], rtol=1e-5, atol=1e-6):
+                ctx.violation(dict(sig, q="phase_behaviour", phase=ph), f"in the {ph} phase the restored policy returns other solutions than the saved model on the same instances (same random stream)", None)
+                return
         sd_a, sd_b = model.policy.state_dict(), loaded.policy.state_dict()
         if set(sd_a) != set(sd_b) or any(not torch.equal(sd_a[k], sd_b[k]) for k in sd_a):
             ctx.violation(dict(sig, q="policy_weights"), "policy weights differ after restore", None)
@@ -573,5 +590,52 @@ def multifile_case(ctx, case):
                 return
         ctx.nontrivial_case(dict(c=case))
         ctx.sample(dict(case=case, names=keys))
+    finally:
+        shutil.rmtree(d, ignore_errors=True)
+
+
+def gen_determinism_case(ctx, case):
+    """A generated dataset file is named after (problem, distribution, size, name, seed): its content must be a function of exactly
+    those - the same whether it was written alone, together with other sizes in one call, or in a call that skipped files which
+    already existed (otherwise the instances an env loads from '<...>_seed1234.npz' depend on the history of the data directory)."""
+    import numpy as np
+
+    from rl4co.data.generate_data import generate_dataset
+
+    prob, sizes, N, seed = case["problem"], case["sizes"], case["N"], case["s"]
+    sig = dict(kind="generated_file_determinism", problem=prob)
+    d = scratch()
+    try:
+        def fname(root, n):
+            return os.path.join(root, prob, "{}{}_{}_seed{}.npz".format(prob, n, "val", seed))
+
+        roots = {}
+        # (a) every size on its own
+        for n in sizes:
+            roots[("alone", n)] = os.path.join(d, f"alone{n}")
+            generate_dataset(data_dir=roots[("alone", n)], name="val", problem=prob, dataset_size=N, graph_sizes=[n], seed=seed, overwrite=True)
+        # (b) all sizes in one call
+        roots["together"] = os.path.join(d, "together")
+        generate_dataset(data_dir=roots["together"], name="val", problem=prob, dataset_size=N, graph_sizes=list(sizes), seed=seed, overwrite=True)
+        # (c) the first size already on disk, the call writes the rest
+        roots["resumed"] = os.path.join(d, "resumed")
+        generate_dataset(data_dir=roots["resumed"], name="val", problem=prob, dataset_size=N, graph_sizes=[sizes[0]], seed=seed, overwrite=True)
+        generate_dataset(data_dir=roots["resumed"], name="val", problem=prob, dataset_size=N, graph_sizes=list(sizes), seed=seed, overwrite=False)
+        ctx.count("c19_generation_histories")
+        for n in sizes:
+            ref = dict(np.load(fname(roots[("alone", n)], n)))
+            for how in ("together", "resumed"):
+                ctx.evaluation()
+                ctx.count("c19_generated_file_comparisons")
+                f = fname(roots[how], n)
+                if not os.path.isfile(f):
+                    ctx.violation(dict(sig, q="file_missing", how=how), f"{os.path.relpath(f, d)} was not written", None)
+                    return
+                got = dict(np.load(f))
+                bad = [k for k in ref if k not in got or got[k].shape != ref[k].shape or not np.array_equal(got[k], ref[k])]
+                if bad:
+                    ctx.violation(dict(sig, q="content_depends_on_history", how=how), f"size-{n} file written {how} differs from the same (problem, size, seed) written alone (keys {bad})", dict(sizes=sizes, seed=seed))
+                    return
+        ctx.nontrivial_case(dict(c=case))
     finally:
         shutil.rmtree(d, ignore_errors=True)
